@@ -4,7 +4,8 @@
 # at once and while other checks use /repo.  Output: one line per check.
 P=$1; shift
 WT=/tmp/wt/try-$$
-git -C /repo worktree add -q --detach "$WT" HEAD || exit 2
+for attempt in 1 2 3 4; do git -C /repo worktree add -q --detach "$WT" HEAD 2>/dev/null && break; sleep $((attempt * 2)); done
+[ -d "$WT" ] || { echo "could not create scratch worktree"; exit 2; }
 cleanup() { git -C /repo worktree remove --force "$WT" 2>/dev/null; rm -rf "/verif/build/trial-try-$$"; }
 trap cleanup EXIT
 git -C "$WT" apply "$P" || { echo "patch does not apply"; exit 2; }
